@@ -627,7 +627,7 @@ class IdxArr:
             raise NumpyRaise("ValueError", f"cannot reshape array of size {n} into shape {tuple(shape)}")
         if len(big) > 1:
             raise ModelAbort("index array reshaped to more than one long axis")
-        return Mesh(big[0] if big else 0, len(shape), self.positions)
+        return Mesh(big[0] if big else None, len(shape), self.positions)       # all-ones shape: the long axis is anyone's guess
 
     def __repr__(self):
         return f"IdxArr({self.positions})"
@@ -749,6 +749,12 @@ def index_plan(a: AArr, idx):
         bdims = [(per[i][1], per[i][2])]
     else:
         mm = per[meshes[0]][2].m
+        # a one-element mesh array has shape (1,...,1): it fits any free slot of the open mesh (the result is the same)
+        taken = {per[i][2].k for i in meshes if per[i][2].k is not None}
+        free = [k for k in range(mm) if k not in taken]
+        for i in meshes:
+            if per[i][2].k is None:
+                per[i] = (per[i][0], per[i][1], Mesh(free.pop(0) if free else 0, per[i][2].m, per[i][2].positions))
         ks = sorted(per[i][2].k for i in meshes)
         if any(per[i][2].m != mm for i in meshes) or ks != list(range(mm)):
             raise ModelAbort("inconsistent open mesh in index")
